@@ -424,8 +424,9 @@ Definition exec (s : st) (x : stmt) : result st :=
     do ms <- upd_model_res (s_cur s) (do_conn an ai bn bi) (st_models s);
     Ok (set_ms s ms)
   | SBlackbox =>
-    let ms := upd_model (s_cur s)
-                (fun m => set_cables (set_orphans m (m_orphans m ++ m_cables m)) []) (st_models s) in
+    (* make_blackbox: every wire of the model is emptied (disconnect_pins_from), then the cables
+       are removed: nothing stays attached to them *)
+    let ms := upd_model (s_cur s) (fun m => set_cables m []) (st_models s) in
     Ok (mkSt (set_models (s_nl s) ms) (s_cur s) (s_defnames s) (s_curinst s) true)
   | SEnd =>
     let n := s_nl s in
